@@ -47,8 +47,8 @@ static std::string rdf_target() {
 void tool_build(const Plan &p, Case &c) {
   bool two = (p.variant & V_TWO) && p.chain >= 2;
   double box = p.lattice ? 2.0 : 1.7 + 0.1 * (double)(p.case_seed % 6);
-  c.files["topol.xml"] = gen_topology_xml(p, two);
-  std::string trj = p.fmt == 0 ? "traj.vdump" : "traj.vgro";
+  c.files["topol.xml"] = gen_topology_xml(p, two, box);
+  std::string trj = trj_file(p);
   c.files[trj] = gen_trajectory(p, box, p.nmol * p.chain);
   std::ostringstream o;
   o << "<cg>\n";
